@@ -50,6 +50,9 @@ type Role struct {
 	Lag func() int64
 	// OnlyLabelled restricts reads to objects matching the selector (the dynamic cache's informer filter).
 	Selector labels.Selector
+	// HideYoung: objects created within the last HideYoung() commits are invisible to this client
+	// (an informer cache that has not yet received the create event; everything else is served fresh).
+	HideYoung func() int64
 	// ResetOnRead: typed objects are fully replaced on Get/List (informer-cache clients) instead of decoded onto.
 	ResetOnRead bool
 }
@@ -220,6 +223,9 @@ func (c *Client) Get(ctx context.Context, key client.ObjectKey, obj client.Objec
 	if cur != nil && c.role.Selector != nil && !c.role.Selector.Matches(labelsOf(cur)) {
 		cur = nil
 	}
+	if cur != nil && c.role.HideYoung != nil && s.youngLocked(skey, c.role.HideYoung()) {
+		cur = nil
+	}
 	if cur == nil {
 		req.Err = k.notFound(key.Name)
 		return req.Err
@@ -259,8 +265,15 @@ func (c *Client) List(ctx context.Context, list client.ObjectList, opts ...clien
 		return err
 	}
 	sel := lo.LabelSelector
+	var hide int64
+	if c.role.HideYoung != nil {
+		hide = c.role.HideYoung()
+	}
 	items := s.listLocked(k, lo.Namespace, sel, c.lag(), func(o Obj) bool {
 		if c.role.Selector != nil && !c.role.Selector.Matches(labelsOf(o)) {
+			return false
+		}
+		if hide > 0 && s.youngLocked(s.keyFor(k, strField(o, "metadata", "namespace"), strField(o, "metadata", "name")), hide) {
 			return false
 		}
 		if lo.FieldSelector != nil {
